@@ -665,3 +665,79 @@ def rule_py_struct_formats_little_endian(out, pyr):
                 out.check(bool(literal_ok(arg)), rid, "%s(...)/format" % node.func.id, pyr.pos(rel, node), "literal little-endian format", "format is not a literal starting with `<`")
     if n == 0:
         out.undecided(rid, "anchor/struct.Struct", rel, "no struct format found")
+
+
+def _norm_count(e, env):
+    """canonical text of a count: len(X.shape) -> X.ndim ; len(E[:-k]) -> len(E) - k ; len(E[:k]) -> k ; explaining locals substituted"""
+    e = _Subst(env).visit(copy.deepcopy(e))
+
+    class T(ast.NodeTransformer):
+        def visit_Call(self, c):
+            self.generic_visit(c)
+            if isinstance(c.func, ast.Name) and c.func.id == "cast" and len(c.args) == 2:
+                return c.args[1]  # typing.cast is the identity
+            if isinstance(c.func, ast.Name) and c.func.id == "len" and len(c.args) == 1:
+                a = c.args[0]
+                if isinstance(a, ast.Attribute) and a.attr == "shape":
+                    return ast.Attribute(value=a.value, attr="ndim", ctx=ast.Load())
+                if isinstance(a, ast.Subscript) and isinstance(a.slice, ast.Slice) and a.slice.step is None and a.slice.lower is None and a.slice.upper is not None:
+                    inner = T().visit(ast.Call(func=ast.Name(id="len", ctx=ast.Load()), args=[a.value], keywords=[]))
+                    up = a.slice.upper
+                    if isinstance(up, ast.UnaryOp) and isinstance(up.op, ast.USub):
+                        return ast.BinOp(left=inner, op=ast.Sub(), right=up.operand)
+                    return up
+            return c
+    e = T().visit(e)
+    ast.fix_missing_locations(e)
+    return ast.unparse(e).replace(" ", "")
+
+
+def rule_py_count_prefix_is_the_loop_length(out, pyr):
+    rid = "PL2"
+    out.rule(rid, "_binary.py: a `write_unsigned_varint(N)` that is immediately followed by a loop writing one item per element of S announces N = len(S) "
+                  "(with len(x.shape) = x.ndim and len(E[:-k]) = len(E) - k; explaining locals and helper results assigned once are followed)", 4)
+    tree, rel = pyr.parse_py(out, "_binary.py")
+    n = 0
+    for cname, cls in pyr.classes(tree).items():
+        for mname, fn in pyr.methods(cls).items():
+            env = {}
+            # locals assigned exactly once in the method
+            counts = {}
+            for st in ast.walk(fn):
+                if isinstance(st, ast.Assign) and len(st.targets) == 1 and isinstance(st.targets[0], ast.Name):
+                    counts[st.targets[0].id] = counts.get(st.targets[0].id, 0) + 1
+            for st in ast.walk(fn):
+                if isinstance(st, ast.Assign) and len(st.targets) == 1 and isinstance(st.targets[0], ast.Name) and counts[st.targets[0].id] == 1:
+                    v = st.value
+                    # `shape = self._leading_shape(value)`: a helper with a single returned expression per path cannot be summarised here
+                    env[st.targets[0].id] = v
+
+            def visit(stmts):
+                nonlocal n
+                for i, st in enumerate(stmts):
+                    for child in ("body", "orelse", "finalbody"):
+                        sub = getattr(st, child, None)
+                        if isinstance(sub, list) and sub and isinstance(sub[0], ast.stmt):
+                            visit(sub)
+                    if not (isinstance(st, ast.Expr) and isinstance(st.value, ast.Call) and isinstance(st.value.func, ast.Attribute) and st.value.func.attr == "write_unsigned_varint" and st.value.args):
+                        continue
+                    if i + 1 >= len(stmts) or not isinstance(stmts[i + 1], ast.For):
+                        continue
+                    loop = stmts[i + 1]
+                    writes = any(isinstance(c, ast.Call) and isinstance(c.func, ast.Attribute) and c.func.attr.startswith("write") for c in ast.walk(loop))
+                    if not writes:
+                        continue
+                    it = loop.iter
+                    # `for k, v in value.items()` / enumerate(S): the collection behind the iterator
+                    while isinstance(it, ast.Call) and ((isinstance(it.func, ast.Attribute) and it.func.attr in ("items", "keys", "values") and not it.args) or (isinstance(it.func, ast.Name) and it.func.id == "enumerate" and it.args)):
+                        it = it.func.value if isinstance(it.func, ast.Attribute) else it.args[0]
+                    announced = _norm_count(st.value.args[0], env)
+                    actual = _norm_count(ast.Call(func=ast.Name(id="len", ctx=ast.Load()), args=[it], keywords=[]), env)
+                    n += 1
+                    out.check(announced == actual, rid, "%s.%s/count before the loop over %s" % (cname, mname, ast.unparse(loop.iter)), pyr.pos(rel, st),
+                              "announces `%s`, the loop writes len = `%s`" % (announced, actual),
+                              "the count written in front of the loop is `%s` but the loop writes one item per element of `%s` (`%s` items): the reader takes the announced number of items, "
+                              "so the following bytes are decoded as something else" % (announced, ast.unparse(loop.iter), actual))
+            visit(fn.body)
+    if n == 0:
+        out.undecided(rid, "anchor/count-prefixed loops", rel, "none found")
